@@ -71,15 +71,16 @@ class sink(Sink):
             if metadata:
                 # keep the element's references until the consumer has finished
                 self._retain_refs(metadata)
-                return self._release_when_done(result, metadata)
+                result = gen.convert_yielded(result)
+                result.add_done_callback(
+                    lambda f: self._release_when_done(f, metadata))
             return result
         else:
             return []
 
-    async def _release_when_done(self, awaitable, metadata):
-        result = await awaitable
-        self._release_refs(metadata)
-        return result
+    def _release_when_done(self, future, metadata):
+        if not future.cancelled() and future.exception() is None:
+            self._release_refs(metadata)
 
 
 @Stream.register_api()
